@@ -568,9 +568,9 @@ def run(chk):
     chk.function(SCOPE, "ParameterController.optimise", "P")
     only = getattr(chk, "only", None)
     if not only or "proof" in only:
-        chk.guard(run_limited_use)
+        chk.guard(run_limited_use, fallback=[_replay_limited])
         chk.guard(run_wrappers)
-        chk.guard(run_maximise)
+        chk.guard(run_maximise, fallback=[_replay_maximise])
         chk.guard(run_pc_optimise)
         chk.discharge()
     chk.assume("float is modelled as the extended reals [-INF, INF]; NaN is excluded by precondition; rounding is not modelled")
